@@ -17,15 +17,21 @@ env -u TORNADO_VERIF timeout 300 /venv/bin/python _demo.py > "$W/_demo1.out" 2>&
 env -u TORNADO_VERIF timeout 1500 /venv/bin/python -m pytest -q -p no:cacheprovider --timeout=900 --continue-on-collection-errors tornado/test > "$W/_suite.out" 2>&1
 SUM=$(tail -1 "$W/_suite.out")
 FAILED=$(grep -E '^(FAILED|ERROR) tornado/test/' "$W/_suite.out" | sed 's/^[A-Z]* //; s/ - .*//' | sort -u)
-STILL=""
+STILL=""; ENVFAIL=""
 for t in $FAILED; do
   ok=0
   for k in 1 2 3; do
     env -u TORNADO_VERIF timeout 600 /venv/bin/python -m pytest -q -p no:cacheprovider --timeout=900 "$t" > "$W/_rerun.out" 2>&1 && { ok=1; break; }
   done
-  [ $ok = 1 ] || STILL="$STILL $t"
+  if [ $ok != 1 ]; then
+    # environmental? the same test must then also fail on the pristine tree right now
+    PW="$W-pristine"
+    [ -d "$PW" ] || git -C /repo worktree add --detach "$PW" HEAD >/dev/null 2>&1
+    ( cd "$PW" && env -u TORNADO_VERIF timeout 600 /venv/bin/python -m pytest -q -p no:cacheprovider --timeout=900 "$t" > "$W/_rerun0.out" 2>&1 ) && STILL="$STILL $t" || ENVFAIL="$ENVFAIL $t"
+  fi
 done
-echo "$P-$N demo_unchanged_rc=$D0 demo_changed_rc=$D1 suite='$SUM' failed_first_pass='$(echo $FAILED | tr '\n' ' ')' still_failing_alone='$STILL'"
+[ -d "$W-pristine" ] && git -C /repo worktree remove --force "$W-pristine" >/dev/null 2>&1
+echo "$P-$N demo_unchanged_rc=$D0 demo_changed_rc=$D1 suite='$SUM' failed_first_pass='$(echo $FAILED | tr '\n' ' ')' still_failing_alone='$STILL' fails_on_pristine_too='$ENVFAIL'"
 if [ $D0 = 0 ] && [ $D1 != 0 ] && [ -z "$STILL" ]; then
   mkdir -p "$OUT"
   cp "$SRC/change$N.diff" "$OUT/patch.diff"; cp "$SRC/demo$N.py" "$OUT/demo.py"
